@@ -488,6 +488,26 @@ struct C20 : Scenario {
                 std::string got = op.type == T::f32 ? cf((float)a->at(0)) : op.type == T::f64 ? cd(a->at(0)) : std::to_string((long)a->at(0));
                 if (got != eff[op.name]) { o.hints["opt"] = op.name; o.fail("C20.effective_value", "recorded parameter " + std::string(op.name) + " = " + got + " but command line > config file > default gives " + eff[op.name]); }
             }
+            // the saved .cfg shows the effective value of every option, also of the types /Info/Parameters cannot hold
+            {
+                std::map<std::string, std::string> seen;
+                for (auto& line : split(read_file(rc.workdir + "/out.h5.cfg"), '\n')) {
+                    if (line.empty() || line[0] == '#') continue;
+                    size_t e = line.find('=');
+                    if (e == std::string::npos) continue;
+                    std::string k = line.substr(0, e), v = line.substr(e + 1);
+                    seen[k] += (seen.count(k) ? " " : "") + v;
+                }
+                bool fs_used = strtod(eff["SynchrotronFrequency"].c_str(), nullptr) != 0;
+                for (auto& op : table()) {
+                    if (!op.get || !seen.count(op.name)) continue;
+                    std::string n = op.name;
+                    if (n == "output" || n == "cldev" || (n == "alpha0" && fs_used)) continue;
+                    o.checks++;
+                    std::string got = canon(op, seen[n]);
+                    if (got != eff[n]) { o.hints["opt"] = n; o.fail("C20.effective_value", "saved configuration has " + n + " = " + got + " but command line > config file > default gives " + eff[n]); }
+                }
+            }
             o.probe("cls.prog.both" + std::to_string(std::min(both, 3L)) + (alias ? ".alias" : "") + (ign ? ".ignored" : ""));
             o.nontrivial = true;
             o.mixfp(r.evhash()); o.mixfp(s.digest());
